@@ -19,6 +19,9 @@ func init() {
 			ruleCloseOnce(c, "C13.8")
 			ruleRejectClose(c, "C13.9")
 			ruleNoDataAfterHalfClose(c, "C13.10")
+			ruleClientIDs(c, "C13.11a", "C13.11b", "C13.11")
+			ruleRevisionZeroFrames(c, "C13.12")
+			ruleNothingAfterCloseDecision(c, "C13.13")
 		},
 		Explain:    "Static structural necessary conditions of protocol conformance, decided on the emit-site table of the current tree (every frame literal that reaches a carrier send): ids, settings guard, envelope/continuation shape, contiguity under a per-stream mutex, once-guards per frame kind, exactly-one close. All CFG paths and all call sites; no input or schedule bound. It decides the shape of the emitting code, not the bytes on the wire.",
 		Assume:     []string{"lock identity is struct type + field", "the generated tunnelpb marshalling code is correct", "applications obey gRPC's one-sender-per-direction rule"},
